@@ -296,6 +296,7 @@ func c02Run(t *testing.T, cfg c02Config) c02Outcome {
 		}
 		ln.Close()
 		w.ServerTr.Close()
+		w.CloseEndpoints()
 		<-srvDone
 		out.ndgram = w.Router.Count(sim.C2S) + w.Router.Count(sim.S2C)
 		out.transcript = w.Router.Transcript()
